@@ -657,16 +657,44 @@ def compare_branches(ctx: Ctx) -> Dict[str, Tuple[ast.AST, ast.expr]]:
     return out
 
 
+def run_compare(ctx: Ctx, rule: str, left: object, op: str, right: object) -> object:
+    """`JSONPathEnvironment().compare(left, op, right)` by abstract execution (rules/model.py): True / False, RAISES,
+    or UNKNOWN.  However compare() dispatches - an if chain, a table of lambdas, a loop over rows - this is what it
+    answers for these operands."""
+    from .model import MObj
+    from .model import Model
+
+    model = Model(ctx, rule)
+    model.whole_bodies = True
+    return model.call(MObj(model, "JSONPathEnvironment", {}), "compare", [left, op, right])
+
+
+def compare_branches_or_none(ctx: Ctx) -> Optional[Dict[str, Tuple[ast.AST, ast.expr]]]:
+    """compare_branches, or None when the dispatch is not spelled as tests on the operator (a table of functions, a
+    loop over rows ...): the callers then decide by executing compare() on witnesses."""
+    try:
+        br = compare_branches(ctx)
+    except AnalysisError:
+        return None
+    return br if all(op in br for op in ("==", "!=", "<", ">", "<=", ">=")) else None
+
+
 def r2_5(ctx: Ctx) -> RuleResult:
     rr = RuleResult("R2.5", "the six comparison operators are wired to the right primitive and operand order", floor=6)
     fn = ctx.repo.require_func("JSONPathEnvironment.compare")
     params = [a.arg for a in fn.node.args.args]
     left, right = params[1], params[3]
-    br = compare_branches(ctx)
-    for op in ("==", "!=", "<", ">", "<=", ">="):
-        if op not in br:
-            rr.bad(fn, fn.node, f"compare() has no branch for `{op}`", construct=f"branch {op}")
-    if rr.findings:
+    br = compare_branches_or_none(ctx)
+    if br is None:
+        # the dispatch is data-driven: the wiring of the six operators is what R2.10 establishes by executing
+        # compare() on the RFC's comparison table (every ordered pair of 20 covering operands)
+        table = r2_10(ctx)
+        if table.findings:
+            for f in table.findings:
+                rr.bad(fn, fn.node, f.message, construct=f.construct)
+        else:
+            for op in ("==", "!=", "<", ">", "<=", ">="):
+                rr.ok(fn.loc(), f"`{op}`: decided by executing compare() on the comparison table (the dispatch is not an if chain)")
         return rr
     t_eq = _term(br["=="][1], left, right)
     t_lt = _term(br["<"][1], left, right)
